@@ -206,7 +206,7 @@ func vh_C13_stop() {
 func vh_C13_process() {
 	rec := &vxEvents{reenter: vxChoose(2) == 1}
 	a, slots, closed := vxAgentState(rec)
-	m := &Message{TransactionID: vxID()}
+	m := &Message{TransactionID: vxID(), Type: vxAnyType()} // any method and class: "Process always emits and unregisters"
 	vxGuardsOn()
 	err := a.Process(m)
 	vxGuardsOff()
@@ -340,6 +340,51 @@ func vh_C13_collect_overlap() {
 	}
 	vxAssert(len(rec.list) == expected, "overlapping Collects emit nothing else")
 	vxCheckPost(a, &slots, extra, false, "overlapping Collects")
+}
+
+// vxAnyType: an arbitrary message type (any 12-bit method, any of the four classes).
+func vxAnyType() MessageType {
+	return MessageType{Method: Method(vxU16() & 0xfff), Class: MessageClass(vxU8() & 3)}
+}
+
+// vh_C13_collect_many: more timed-out transactions in one Collect than any internal batch or pre-allocated
+// scratch holds (the source pre-allocates room for 100 IDs): 101 registered transactions with concrete IDs,
+// the first 50 with deadline d1 and the rest with d2 (symbolic instants), one Collect(t): every transaction
+// whose deadline is strictly before t is timed out by this call, none is left behind, no other is touched.
+func vh_C13_collect_many() {
+	rec := &vxEvents{}
+	a := NewAgent(rec.handle)
+	rec.agent = a
+	d1, d2, t := vxTime(), vxTime(), vxTime()
+	const n, k = 101, 50
+	vxUnwind(4*n, false) // loops over the table are checked against this bound, not cut
+	for i := 0; i < n; i++ {
+		var id transactionID
+		id[0], id[1] = byte(i), 0x80
+		d := d2
+		if i < k {
+			d = d1
+		}
+		vxAssert(a.Start(id, d) == nil, "Start of a new ID succeeds")
+	}
+	vxAssert(a.Collect(t) == nil, "Collect succeeds on an open agent")
+	want := 0
+	if d1.Before(t) {
+		want += k
+		vxReach("first-group-due")
+	}
+	if d2.Before(t) {
+		want += n - k
+		vxReach("second-group-due")
+	}
+	if want == n {
+		vxReach("all-101-due")
+	}
+	vxAssert(len(rec.list) == want, "Collect times out every due transaction in one call, however many there are")
+	vxAssert(len(a.transactions) == n-want, "exactly the transactions that are not due stay registered")
+	for _, e := range rec.list {
+		vxAssert(e.Error == ErrTransactionTimeOut && e.TransactionID[1] == 0x80, "only timeouts of registered transactions are emitted")
+	}
 }
 
 func vh_C13_sethandler_close() {
@@ -479,7 +524,7 @@ func vh_C13_history() {
 			}
 			vxReach("stop")
 		case 2:
-			m := &Message{TransactionID: id}
+			m := &Message{TransactionID: id, Type: vxAnyType()}
 			err := a.Process(m)
 			if closed {
 				vxAssert(errors.Is(err, ErrAgentClosed) && len(rec.list) == from, "history: Process on a closed agent")
